@@ -27,6 +27,9 @@ Definition same_cfg_outside (P : str -> Prop) (r r' : brepo) : Prop :=
 (* the branches an operation names *)
 Definition op_names (r : brepo) (o : bop) (b : str) : Prop :=
   match o with
+  | BCreate n _ _ _ => b = n
+  | BSwitch _ => False
+  | BDescribe a _ => b = a
   | BClone n => b = n \/ b_head r = Some b
   | BRename a n => b = a \/ b = n
   | BDelete a _ | BCleanup a _ | BProtect a | BUnprotect a => b = a
